@@ -94,6 +94,12 @@ def vector_groups():
                   'at: aborts iff i >= size, else address of element i inside the allocation', covers=['end', 'abort'])
                 g('clear', ['C09', 'C15'], 'h_clear', 'cstl_vector_clear',
                   'clear: destructor once per element, storage freed, empty vector')
+    for fam in ('', 'empty'):
+        d = ['-DVF_ESZ=4', '-DVF_G_wrappers'] + (['-DVF_VEC_EMPTY'] if fam else [])
+        for nm, h, fn, rep in (('sort', 'h_w_sort', '__cstl_vector_sort', 'cstl_raw_array_sort'), ('reverse', 'h_w_reverse', '__cstl_vector_reverse', 'cstl_raw_array_reverse'),
+                               ('search', 'h_w_search', 'cstl_vector_search', 'cstl_raw_array_search'), ('find', 'h_w_find', 'cstl_vector_find', 'cstl_raw_array_find')):
+            G.append(Group('vector.w_%s%s' % (nm, '.empty' if fam else ''), ['C09', 'C11'], 'P', S, h, enforce=fn, replace=[rep], sources=src, defines=d,
+                           what='vector %s wrapper: hands the raw-array function exactly the elements [0,size), the element size and the spare slot at index capacity; storage, size and capacity unchanged [element size 4, %s]' % (nm, 'empty vector' if fam else 'vector with storage')))
     G.append(Group('vector.swap', ['C09'], 'P', S, 'h_swap', enforce='cstl_vector_swap', sources=src, defines=['-DVF_G_swap'], replay=True,
                    what='swap exchanges storage, size, capacity and the element description (element size, constructor, destructor, private pointer) together, for any field values'))
     return G
